@@ -2604,10 +2604,14 @@ class Tree:
         """
         Call into the fast but limited C implementation of the newick conversion.
         """
-        root_time = max(1, self.time(root))
+        # No branch below root is longer than the root's time minus the smallest
+        # node time (node times can be negative)
+        max_branch_length = max(
+            1, self.time(root) - np.min(self.tree_sequence.nodes_time)
+        )
         max_label_size = math.ceil(math.log10(self.tree_sequence.num_nodes))
         single_node_size = (
-            5 + max_label_size + math.ceil(math.log10(root_time)) + precision
+            5 + max_label_size + math.ceil(math.log10(max_branch_length)) + precision
         )
         buffer_size = 1 + single_node_size * self.tree_sequence.num_nodes
         return self._ll_tree.get_newick(
